@@ -770,6 +770,74 @@ func Dump(v any) string {
 	return s
 }
 
+// NDur picks the tier's duration bound.
+func (c *Check) NDur(quick, thorough time.Duration) time.Duration {
+	if c.Quick() {
+		return quick
+	}
+	return thorough
+}
+
+// StuckIn reads the goroutine dump a watchdog SIGQUIT left in a child's log and
+// returns where request goroutines (those with a gateway handler on their
+// stack) are parked inside the engine: the innermost hydraide function plus the
+// runtime wait primitive, most frequent first, at most three. Empty when no
+// request goroutine is parked in engine code (then the child was merely slow).
+func StuckIn(logPath string) string {
+	b, err := os.ReadFile(logPath)
+	if err != nil {
+		return ""
+	}
+	counts := map[string]int{}
+	for _, g := range strings.Split(string(b), "\n\ngoroutine ") {
+		if !strings.Contains(g, "gateway.Gateway.") {
+			continue
+		}
+		lines := strings.Split(g, "\n")
+		if len(lines) < 2 || !(strings.Contains(lines[0], "sync.") || strings.Contains(lines[0], "semacquire") || strings.Contains(lines[0], "chan ") || strings.Contains(lines[0], "select")) {
+			continue
+		}
+		prim := "?"
+		inner := ""
+		for _, ln := range lines[1:] {
+			ln = strings.TrimSpace(ln)
+			if strings.HasPrefix(ln, "sync.") && prim == "?" {
+				prim = ln[:strings.IndexAny(ln+"(", "(")]
+			}
+			if strings.HasPrefix(ln, "github.com/hydraide/hydraide/app/") {
+				inner = shortFunc(ln[:strings.LastIndex(ln, "(")])
+				break
+			}
+		}
+		if inner == "" || strings.Contains(inner, "gateway.Gateway.Subscribe") {
+			continue
+		}
+		counts[inner+"["+prim+"]"]++
+	}
+	type kv struct {
+		k string
+		n int
+	}
+	var l []kv
+	for k, n := range counts {
+		l = append(l, kv{k, n})
+	}
+	sort.Slice(l, func(a, b int) bool {
+		if l[a].n != l[b].n {
+			return l[a].n > l[b].n
+		}
+		return l[a].k < l[b].k
+	})
+	var out []string
+	for i, e := range l {
+		if i < 3 {
+			out = append(out, e.k)
+		}
+	}
+	sort.Strings(out)
+	return strings.Join(out, "+")
+}
+
 // ReadJSON reads a JSON file into v (panics on error; used for replays).
 func ReadJSON(path string, v any) {
 	b, err := os.ReadFile(path)
